@@ -458,17 +458,16 @@ def case_seq(c):
     viol, states, refusals, reads = [], [], [], 0
     where = "after-create"
 
-    last = [None, None]  # centres returned / expected at the previous read of this object
-    changed = [False]  # a setter ran since that read
+    hist = []  # (centres returned, centres expected) at the earlier reads of this very object
 
     def read():
         nonlocal reads
         reads += 1
         filled = getattr(obj, "_centroids", None) is not None  # state component only, never judged
         out, got, exp = seq.check(obj, where, origin_known)
-        # stale = a setter ran, the geometry's centres should have moved, yet the previous answer came back
-        stale = (changed[0] and got is not None and last[0] is not None and ref.compare(got, last[0]) is None
-                 and exp is not None and last[1] is not None and ref.compare(exp, last[1]) is not None)
+        # stale = the answer of an earlier read came back although the geometry now calls for other centres
+        stale = got is not None and exp is not None and any(
+            ref.compare(got, g0) is None and ref.compare(exp, e0) is not None for g0, e0 in hist)
         named = []
         for cl, w, d in out:
             head, kind = w.rsplit("|", 1)
@@ -478,8 +477,8 @@ def case_seq(c):
                 w = f"{head}|stale cache" if stale else f"{c['cls']}|sequence|{kind}"
                 d = dict(d or {}, where=where)
             named.append((cl, w, d))
-        last[0], last[1] = got, exp
-        changed[0] = False
+        if got is not None and exp is not None:
+            hist.append((got, exp))
         states.append(seq.state_key(obj, filled))
         return named
 
@@ -492,7 +491,7 @@ def case_seq(c):
             uid = obj.uid
             ws = _reopen(ws, "r+")
             obj = ws.get_entity(uid)[0]
-            last[0] = last[1] = None
+            hist.clear()
             origin_known = True  # loaded from the file
             where = "after-reopen"
         elif op[0] == "set":
@@ -505,7 +504,6 @@ def case_seq(c):
                     where = f"after-set:{op[1]}"
                 if op[1] == "origin":
                     origin_known = True
-                changed[0] = True
             except core.HarnessError:
                 raise
             except Exception as err:  # pylint: disable=broad-except
@@ -513,7 +511,7 @@ def case_seq(c):
         elif op[0] == "copy":
             try:
                 obj = obj.copy(**{op[1]: _conv(op[1], op[2])})
-                last[0] = last[1] = None
+                hist.clear()
                 origin_known = True  # the copy receives the source's origin through its setter
                 where = f"after-copy-with:{op[1]}"
             except Exception as err:  # pylint: disable=broad-except
